@@ -1631,7 +1631,10 @@ def run(chk, ctx):
                     'masked-array constructors, nested functions and closure variables, function tables and make_extrap_func wrappers, interprocedural modified-parameter and returned-alias summaries '
                     'within the audited modules), not a semantic proof: the may-alias analysis is proved sound for the control-flow skeletons (C20_flow_sound) and the skeletons of the demes front end '
                     'are analysed in Lean too, but the extraction of a skeleton from the Python source is trusted; dynamic dispatch other than literal function tables, loop variables bound to '
-                    'elements and C-level writes are covered by the byte comparisons only']
+                    'elements and C-level writes are covered by the byte comparisons only',
+                    'the table of writes through possibly-copied handles (copyWrites) is a syntactic scan (forward pass, union at joins) with a built-in self-test; numpy\'s rule "ravel is a view '
+                    'iff the array is C-contiguous" is an axiom of the strided-array model, compared with numpy by K (c20.arrwrite), and only stores in the closed language '
+                    '(direct / flat / ravel / flatten handle, literal index, Boolean value) are modelled — others are tabled as .other and left to the run-time layout monitors']
     chk.assumptions.append('fresh-interpreter reference runs use the same scratch build of dadi')
     layout_isolated(chk, ctx, tier)
     k_memo(chk, ctx, rng)
